@@ -503,7 +503,7 @@ func (w *srvWorld) genConn(i int, dialled, late bool) *peerConn {
 }
 
 // genMalformed builds an undecodable item followed by trailing valid-looking data.
-var malformedKinds = []string{"avp-len-lt-8", "avp-len-gt-container", "vflag-short", "unknown-command", "decl-len-short", "garbage", "avp-len-zero-nested", "stray-tail-small", "stray-tail-large", "command-of-parent-application"}
+var malformedKinds = []string{"avp-len-lt-8", "avp-len-gt-container", "vflag-short", "unknown-command", "decl-len-short", "garbage", "avp-len-zero-nested", "stray-tail-small", "stray-tail-large", "command-of-parent-application", "vflag-len-gt-container"}
 
 func (w *srvWorld) forcedMalformed() int {
 	if w.cfg.force != nil {
@@ -551,6 +551,11 @@ func genMalformedKind(t *Tape, conn, k int, forced int) (string, []byte) {
 	case "unknown-command":
 		m := good
 		m.Cmd = 7777
+		b = m.Bytes()
+	case "vflag-len-gt-container":
+		// a vendor-specific AVP whose declared length runs past the end of the message
+		m := good
+		m.AVPs = []RefAVP{{Code: avpSimVendor, Flags: 0x80, Vendor: 9999, Data: mk, DeclLen: 12 + len(mk) + 4*(1+t.Draw(40)), DeclSet: true}}
 		b = m.Bytes()
 	case "command-of-parent-application":
 		// a command code that exists, but neither in the message's application nor in the base one
@@ -1540,6 +1545,9 @@ func mirrorDiff(req *sentMsg, a RefMsg) string {
 		}
 	}
 	mk := a.find(avpSimOctets)
+	if len(req.ref.AVPs) == 0 {
+		return "" // a header-only request: its answer was labelled from the hop-by-hop id, compared above
+	}
 	if mk == nil || string(mk.Data) != string(req.ref.AVPs[0].Data) {
 		return "pairing: the answer does not echo the marker of the request it was paired with"
 	}
